@@ -228,6 +228,8 @@ async fn run(case: &Case, rep: &mut CaseReport) -> Option<(String, String)> {
         // what kind of input is this step?
         let mut network_learnt = false;
         let mut incoming_src: Option<(ids::Id, SocketAddr)> = None;
+        // the id (if any) that THIS step may bring into the table: a session report or an explicit add
+        let mut admits: Option<ids::Id> = None;
         s.take_outbox();
         match step {
             Step::Incoming { rec, v6, matching, attach } => {
@@ -263,6 +265,7 @@ async fn run(case: &Case, rep: &mut CaseReport) -> Option<(String, String)> {
                         rep.class("established-with-record-failing-filter-or-not-contactable");
                     }
                     incoming_src = Some((id.raw(), src));
+                    admits = Some(id.raw());
                     s.inject(HandlerOut::Established(session_enr, src, ConnectionDirection::Incoming)).await;
                 } else {
                     // not allowed for admission: the handler denies such sessions
@@ -287,6 +290,7 @@ async fn run(case: &Case, rep: &mut CaseReport) -> Option<(String, String)> {
                 let o = &outstanding[cands[(*sel as usize * cands.len()) >> 16]];
                 let enr = o.contact.enr().unwrap();
                 allowed.insert(enr.node_id().raw());
+                admits = Some(enr.node_id().raw());
                 network_learnt = true;
                 if let Some(old) = prev.get(&enr.node_id().raw()) {
                     if old.seq() > enr.seq() {
@@ -355,6 +359,7 @@ async fn run(case: &Case, rep: &mut CaseReport) -> Option<(String, String)> {
             Step::AddEnr { rec } => {
                 let e = rec_enr(rec);
                 allowed.insert(e.node_id().raw());
+                admits = Some(e.node_id().raw());
                 let _ = s.d.add_enr(e);
                 s.settle().await;
             }
@@ -404,6 +409,12 @@ async fn run(case: &Case, rep: &mut CaseReport) -> Option<(String, String)> {
                 return Some((
                     format!("admission/entry-fails-table-filter/{}", match step { Step::Incoming { .. } | Step::OutgoingEstablished { .. } => "via-session", Step::AnswerFindNode { .. } => "via-nodes", _ => "other" }),
                     format!("entry {id} does not pass the configured table filter {:?} (after {step:?})", case.filter),
+                ));
+            }
+            if !prev.contains_key(&idr) && admits != Some(idr) {
+                return Some((
+                    "admission/entry-appeared-without-a-session-report-or-add".into(),
+                    format!("node {id} became a table entry in a step that was neither a session report for it nor an explicit add of it ({step:?}); it was {} before", if allowed.contains(&idr) { "a table entry at some earlier point and had been removed" } else { "never admitted" }),
                 ));
             }
             if !allowed.contains(&idr) {
@@ -480,12 +491,25 @@ impl Property for C12 {
             5 => (0u8..12).prop_map(|far_from| Step::Lookup { far_from }),
             1 => rec_strategy().prop_map(|rec| Step::Unverifiable { rec }),
         ];
+        // by construction: a table member announces a newer record (PONG with a higher seq), the
+        // service asks it for that record, the member LEAVES the table before the answer arrives
+        // (removed by the user / reported unverifiable), then the answer arrives
+        let refresh_race = (0u8..12, 1u8..=3, any::<bool>(), prop_oneof![Just(Shape::V4), Just(Shape::Both)]).prop_map(|(key, ver, by_user, shape)| {
+            let rec = Rec { key, ver, shape };
+            vec![
+                Step::Incoming { rec, v6: false, matching: true, attach: true },
+                Step::AnswerPing { sel: 65535, seq_delta: 1 },
+                if by_user { Step::RemoveNode { key } } else { Step::Unverifiable { rec } },
+                Step::AnswerFindNode { sel: 65535, recs: vec![Rec { key, ver: ver + 1, shape }] },
+            ]
+        });
+        let frag = prop_oneof![40 => step.prop_map(|x| vec![x]), 1 => refresh_race];
         let svc = (
             prop_oneof![3 => Just(Mode::Ip4), 1 => Just(Mode::Ip6), 2 => Just(Mode::Dual)],
             prop_oneof![Just(FilterSel::AcceptAll), Just(FilterSel::NoMarker), Just(FilterSel::EvenPort)],
-            proptest::collection::vec(step, 1..n),
+            proptest::collection::vec(frag, 1..n),
         )
-            .prop_map(|(mode, filter, steps)| Case { mode, filter, steps, wire: None });
+            .prop_map(|(mode, filter, frags)| Case { mode, filter, steps: frags.into_iter().flatten().collect(), wire: None });
         let wn = tier.pick(25usize, 60usize);
         let companion = (wire_gen::config_strategy(false), 0u8..4, any::<u8>(), any::<bool>())
             .prop_flat_map(move |(cfg, kind, who, replay)| {
